@@ -1,5 +1,6 @@
 import HavocVerif.Basic.Proto
 import HavocVerif.Spec.C03
+import HavocVerif.Model.Sessions
 namespace Havoc.DriverC03
 open Havoc
 
@@ -49,7 +50,7 @@ def parseObs (impl : List String) : Option SpecC03.ReadObs :=
     pure ⟨c == "1", fs, rest⟩
   | _ => none
 
-def step (l : Line) : Verdict :=
+def stepParser (l : Line) : Verdict :=
   let implS := joinSp l.impl
   match l.op, l.args with
   | "dec", [spec, rest, buf] =>
@@ -121,5 +122,154 @@ def step (l : Line) : Verdict :=
       if m ≠ implS then .diff m else .ok
     | none => .bad "stripnull args"
   | op, _ => .bad s!"unknown op {op}"
+
+
+/-! ### sessions (stateful) -/
+
+def hexNat' (s : String) : Option Nat :=
+  s.toList.foldlM (fun acc c => (hexVal c).map (acc * 16 + ·)) 0
+
+
+structure ObsSession where
+  id : String
+  key : String
+  iv : String
+  rest : List String     -- host user domain ip procpath pid tid ppid sleep jitter killdate wh base
+  deriving DecidableEq, Repr
+
+structure SSt where
+  model : Sessions := []
+  obs : List ObsSession := []
+  kss : List (String × Bytes) := []     -- keystream prefixes by key++iv hex
+
+def parseObsSessions (s : String) : Option (List ObsSession) :=
+  if s = "-" then some []
+  else (s.splitOn ";").mapM fun t =>
+    match t.splitOn "/" with
+    | id :: key :: iv :: rest => some ⟨id, key, iv, rest⟩
+    | _ => none
+
+def hex8 (n : Nat) : String :=
+  let h := toHex (be32 n)
+  h
+
+def ksLookup (st : SSt) : Bytes → Bytes → KeyStream := fun key iv =>
+  match st.kss.lookup (toHexP key ++ toHexP iv) with
+  | some k => fun i => k.getD i 0
+  | none => fun _ => 0
+
+def fieldBytes : Field → Bytes
+  | .bytes d => d
+  | _ => []
+def fieldNat : Field → Nat
+  | .int32 v | .int64 v | .pointer v => v
+  | .bool b => if b then 1 else 0
+  | .bytes _ => 0
+
+/-- what the operator-visible session record must show for the metadata that was sent -/
+def expectRest (info : List Field) : List String :=
+  let g := fun i => info.getD i (.int32 0)
+  [toHexP (stripNull (fieldBytes (g 0))), toHexP (stripNull (fieldBytes (g 1))), toHexP (stripNull (fieldBytes (g 2))),
+   toHexP (stripNull (fieldBytes (g 3))), toHexP (stripNull (utf8 (decodeUTF16 (fieldBytes (g 4))))),
+   toString (fieldNat (g 5)), toString (fieldNat (g 6)), toString (fieldNat (g 7)),
+   toString (fieldNat (g 17)), toString (fieldNat (g 18)), toString (fieldNat (g 19)), toString (fieldNat (g 20)),
+   toString (fieldNat (g 10))]
+
+def dup (l : List String) : Bool := match l with
+  | [] => false
+  | x :: xs => xs.contains x || dup xs
+
+def identityCheck (before after : List ObsSession) : Option String :=
+  let ib := before.map (·.id)
+  let ia := after.map (·.id)
+  if dup ia then some s!"C03.identity two sessions share an id: {ia}"
+  else if ia.take ib.length ≠ ib then some s!"C03.identity session ids changed: {ib} -> {ia}"
+  else none
+
+def sstep (st : SSt) (l0 : Line) : SSt × Verdict :=
+  let l : Line := if l0.op == "sraw" then { l0 with op := "sreg" } else l0
+  match l.op, l.args with
+  | "sreg", hdr :: ks :: buf :: more =>
+    match hexNat' hdr, ofHex ks, ofHex buf, l.impl with
+    | some h, some k, some b, [reply, sess] =>
+      match parseObsSessions ((sess.drop 9).toString) with
+      | none => (st, .bad "sessions obs")
+      | some after =>
+        let keyiv := toHexP (b.take 32) ++ toHexP ((b.drop 32).take 16)
+        let st1 := { st with kss := (keyiv, k) :: st.kss }
+        let (m', res) := handleInit (ksLookup st1) st.model h b
+        let st2 := { st1 with model := m', obs := after }
+        match identityCheck st.obs after with
+        | some e => (st2, .specFail ((e.splitOn " ").headD "C03.identity") e)
+        | none =>
+          -- structured expectations
+          let structured := match more with
+            | [inner, fields] => match hexNat' inner, parseFields fields with
+              | some i, some fs => some (i, fs)
+              | _, _ => none
+            | _ => none
+          let known := st.obs.any (·.id == hex8 h)
+          let verdictModel : Verdict :=
+            let mres := match res with
+              | .registered r => toHexP r
+              | .reconnected r => toHexP r
+              | .rejected => "REJECTED"
+            let mids := m'.map (fun s => hex8 s.id)
+            if mres ≠ reply ∨ mids ≠ after.map (·.id) then .diff s!"{mres} ids={mids}" else .ok
+          match structured with
+          | some (inner, info) =>
+            if known then
+              if after ≠ st.obs then (st2, .specFail "C03.reregister" s!"re-registration of {hex8 h} changed the session table")
+              else (st2, verdictModel)
+            else if inner ≠ h then
+              if after ≠ st.obs ∨ reply ≠ "REJECTED" then
+                (st2, .specFail "C03.decrypt-check" s!"registration with header id {hex8 h} but inner id {hex8 inner} was not rejected")
+              else (st2, verdictModel)
+            else
+              match after.getLast? with
+              | some ns =>
+                if after.length ≠ st.obs.length + 1 then
+                  (st2, .specFail "C03.register" s!"registration of fresh id {hex8 h} created {after.length - st.obs.length} sessions (reply {reply})")
+                else if ns.id ≠ hex8 h ∨ ns.key ≠ toHexP (b.take 32) ∨ ns.iv ≠ toHexP ((b.drop 32).take 16) then
+                  (st2, .specFail "C03.register" s!"session id/key/IV differ from what was sent: {ns.id}")
+                else if ns.rest ≠ expectRest info then
+                  (st2, .specFail "C03.register-metadata" s!"recorded {ns.rest} sent {expectRest info}")
+                else if reply ≠ toHexP (initReply (ksLookup st1) (b.take 32) ((b.drop 32).take 16) h) then
+                  (st2, .specFail "C03.register" s!"registration reply is not the agent id under the session key: {reply}")
+                else (st2, verdictModel)
+              | none => (st2, .specFail "C03.register" s!"registration of fresh id {hex8 h} created no session")
+          | none => (st2, verdictModel)
+    | _, _, _, _ => (st, .bad "sreg args")
+  | "sget", _ =>
+    match l.impl with
+    | [_, sess] =>
+      match parseObsSessions ((sess.drop 9).toString) with
+      | some after =>
+        match identityCheck st.obs after with
+        | some e => ({ st with obs := after }, .specFail "C03.identity" e)
+        | none => if after ≠ st.obs then ({ st with obs := after }, .specFail "C03.identity" "a plain check-in changed the session table") else (st, .ok)
+      | none => (st, .bad "sessions obs")
+    | _ => (st, .bad "sget impl")
+  | "schk", [id, ks, _req, body, inner, _fields] =>
+    match hexNat' id, hexNat' inner, ofHex body, l.impl with
+    | some a, some i, some b, [_, sess] =>
+      let st := { st with kss := (toHexP (b.take 32) ++ toHexP ((b.drop 32).take 16), (ofHex ks).getD []) :: st.kss }
+      match parseObsSessions ((sess.drop 9).toString) with
+      | none => (st, .bad "sessions obs")
+      | some after =>
+        let st2 := { st with obs := after }
+        match identityCheck st.obs after with
+        | some e => (st2, .specFail "C03.identity" e)
+        | none =>
+          let valid := b.length ≥ 48 && (⟨b.drop 48, true⟩ : Parser).canIRead registerGuard && i == a
+          -- key / IV of a session may only change through a complete check-in of that same agent
+          let bad := (st.obs.zip after).any fun (o, n) =>
+            (o.key ≠ n.key ∨ o.iv ≠ n.iv) ∧ !(valid ∧ o.id == hex8 a ∧ n.key == toHexP (b.take 32) ∧ n.iv == toHexP ((b.drop 32).take 16))
+          if bad then (st2, .specFail "C03.session-key" s!"check-in callback for {hex8 a} (inner id {hex8 i}, complete={valid}) changed a session key")
+          else
+            let model' := st.model.map fun s => if s.id == a ∧ valid then { s with key := b.take 32, iv := (b.drop 32).take 16 } else s
+            ({ st2 with model := model' }, .ok)
+    | _, _, _, _ => (st, .bad "schk args")
+  | _, _ => (st, stepParser l)
 
 end Havoc.DriverC03
